@@ -231,7 +231,7 @@ func vpH_c04_positions() {
 // ---- (c) an expansion error is reported ----
 
 func vpH_c04_error() {
-	bad := "${A"                     // unterminated brace expansion: the library reports an error
+	bad := "${A" // unterminated brace expansion: the library reports an error
 	where := vpInt(0, 4)
 	cmdStep := &CommandStep{Command: "ok"}
 	p := &Pipeline{Steps: Steps{cmdStep}}
